@@ -7,6 +7,7 @@ package jsonrpc
 
 //@ property C10 units: normalizeID, (*wsConn).cancelCtx, (*wsConn).handleChanMessage, (*wsConn).handleChanClose, (*wsConn).handleResponse, (*wsConn).handleFrame, (*wsConn).frameExecutor, (*wsConn).handleCall, (*wsConn).readFrame, (*wsConn).nextMessage, (*handler).handleReader, (*handler).handle, rpcError, (*handler).createError, (response).MarshalJSON, (*handler).getSpan, (*JSONRPCError).val, (*rpcFunc).processResponse, (*client).makeOutChan$1$2
 //@ property C09 units: (*handler).handleReader, (*handler).handle, (*handler).handle$1, rpcError, rpcError$1, (response).MarshalJSON, normalizeID, withLazyWriter, (*wsConn).handleCall, (*wsConn).handleOutChans$1
+//@ property C12 units: (*handler).register, (*handler).handle, processFuncOut, (*client).makeRpcFunc, NewMethodNameFormatter$1, (*RPCServer).AliasMethod, WithClientHandlerAlias$1
 //@ property C13 units: doCall, (*handler).handle, rpcError$1
 //@ property C05 units: (*backoff).next
 
@@ -132,6 +133,9 @@ package jsonrpc
 //@   at call dyn:rpcError: assert error-reply-names-request: $1 != nil && $1.ID == req.ID && $0 == w [C09,C02]
 //@   at call withLazyWriter: assert reply-echoes-id-and-version: resp.ID == req.ID && resp.Jsonrpc == "2.0" && $0 == w [C09,C02]
 //@   at call withLazyWriter: assert reply-only-for-id-bearing: req.ID != nil [C09,C04]
+//@   at call doCall: assert dispatches-selected-handler: $1 == selected(s, req.Method).handlerFunc && $0 == req.Method && resolvable(s, req.Method) [C12,C01]
+//@   at call doCall: assert arity-checked-before-call: handler.hasRawParams || (defined(ps) && len(ps) == handler.nParams) [C12,C09]
+//@   at call doCall: assert nothing-rejected-before-call: calls(rpcError) == 0 && calls(doCall) == 0 [C12,C04,C09]
 //@   ensures at-most-one-reply: calls(rpcError) + calls(withLazyWriter) <= 1 [C09,C02]
 //@   ensures id-bearing-gets-exactly-one-reply: req.ID != nil && !chanDeferred ==> calls(rpcError) + calls(withLazyWriter) == 1 [C09,C02]
 //@   ensures channel-reply-left-to-forwarder: chanDeferred ==> calls(rpcError) + calls(withLazyWriter) == 0 [C09,C07]
@@ -191,6 +195,54 @@ package jsonrpc
 //@   modifies nothing
 //@   requires wfRpcFunc(fn)
 //@   nopanic [C10]
+
+//@ func processFuncOut
+//@   modifies nothing
+//@   may_panic
+//@   ensures count: result2 == NumOut(funcType) && result2 <= 2 [C01,C12,C11]
+//@   ensures none: result2 == 0 ==> result0 == -1 && result1 == -1 [C01]
+//@   ensures one: result2 == 1 ==> (OutT(funcType, 0) == errorType ==> result0 == -1 && result1 == 0) && (OutT(funcType, 0) != errorType ==> result0 == 0 && result1 == -1) [C01,C11]
+//@   ensures two: result2 == 2 ==> result0 == 0 && result1 == 1 && OutT(funcType, 1) == errorType [C01,C11]
+
+//@ func (*handler).register
+//@   may_panic
+//@   requires s.methods != nil && s.methodNameFormatter != nil
+//@   modifies handler.methods
+//@   loop 2 invariant raw-needs-param: i >= 0 && (hasRawParams ==> ins >= 1) [C12,C01,C10]
+//@   at ret dyn:s.methodNameFormatter: let fmtRes = $result0
+//@   at call dyn:s.methodNameFormatter: assert formats-namespace-and-method-name: $0 == namespace && $1 == method.Name [C12]
+//@   at mapset handler.methods: assert registered-under-formatted-name: $key == fmtRes [C12]
+//@   at mapset handler.methods: assert stores-wellformed-handler: wfHandler($val) [C12,C01,C10]
+//@   at mapset handler.methods: assert handler-binds-this-method: $val.handlerFunc == method.Func && $val.receiver == val [C12,C01]
+//@   at mapset handler.methods: assert param-count-from-signature: $val.nParams == NumIn(rtypeOf(method.Func)) - 1 - $val.hasCtx [C12,C01]
+//@   at mapset handler.methods: assert ctx-detected-from-signature: ($val.hasCtx == 1) == (NumIn(rtypeOf(method.Func)) >= 2 && InT(rtypeOf(method.Func), 1) == contextType) [C12,C01]
+
+//@ func (*RPCServer).AliasMethod
+//@   requires s.handler != nil && s.handler.aliasedMethods != nil
+//@   at mapset handler.aliasedMethods: assert alias-maps-to-original: $key == alias && $val == original [C12]
+//@   ensures one-entry: true [C12]
+
+//@ func WithClientHandlerAlias$1
+//@   requires c != nil && c.aliasedHandlerMethods != nil
+//@   at mapset Config.aliasedHandlerMethods: assert alias-maps-to-original: $key == alias && $val == original [C12,C16]
+
+//@ func NewMethodNameFormatter$1
+//@   modifies nothing
+//@   nopanic [C12]
+//@   ensures with-namespace: includeNamespace ==> result == strcat(strcat(namespace, "."), ite(nameCase == 1 && len(method) > 0, strcat(lowerOf(substr(method, 0, 1)), substr(method, 1, len(method))), method)) [C12]
+//@   ensures without-namespace: !includeNamespace ==> result == ite(nameCase == 1 && len(method) > 0, strcat(lowerOf(substr(method, 0, 1)), substr(method, 1, len(method))), method) [C12]
+
+//@ func (*client).makeRpcFunc
+//@   may_panic
+//@   requires c.methodNameFormatter != nil
+//@   ghost tagName : U = nil
+//@   ghost tagOK : Bool = false
+//@   at ret (reflect.StructTag).Lookup: set tagName = $result0
+//@   at ret (reflect.StructTag).Lookup: set tagOK = $result1
+//@   at ret dyn:c.methodNameFormatter: let fmtRes = $result0
+//@   at call dyn:c.methodNameFormatter: assert formats-namespace-and-field-name: $0 == c.namespace && $1 == f.Name [C12]
+//@   at call (reflect.StructTag).Lookup: assert looks-up-method-tag: $1 == "rpc_method" [C12]
+//@   at store rpcFunc.name: assert name-is-tag-or-formatted: $val == ite(tagOK, tagName, fmtRes) [C12]
 
 //@ func doCall
 //@   modifies nothing
